@@ -114,6 +114,9 @@ fn render(v: &crate::c12::SavedView) -> String {
 /// `c16 run <mode> <sched> <p0> <p1> [<p2>]` with programs as comma-separated tokens (`-` = none)
 pub fn exec(out: &mut Out, line: &str) -> (String, bool) {
     let a: Vec<&str> = line.split(' ').collect();
+    if a[1] == "stress" {
+        return stress(out, line, &a);
+    }
     if a[1] != "run" {
         return ("bad-op".into(), false);
     }
@@ -206,6 +209,78 @@ pub fn exec(out: &mut Out, line: &str) -> (String, bool) {
     (results.join(" # "), true)
 }
 
+/// `c16 stress <mode> <savers> <cells> <rounds>`: the same workbooks saved by free-running OS threads (no
+/// yield-point scheduler), several rounds; every file must be the one its workbook gives when saved alone.
+/// Exploration only (the OS picks the interleavings): it reaches races INSIDE one table operation, which the
+/// cooperative scheduler cannot, e.g. state shared through a process-wide static.
+fn stress(out: &mut Out, line: &str, a: &[&str]) -> (String, bool) {
+    let mode = a[2];
+    let k: usize = a[3].parse().unwrap_or(4);
+    let cells: usize = a[4].parse().unwrap_or(1000);
+    let rounds: usize = a[5].parse().unwrap_or(3);
+    let labels = ["alpha", "beta", "gamma", "delta", "a&b", " pad "];
+    let strings = |i: usize| -> Vec<String> { (0..cells).map(|r| labels[(r * 5 + i * (1 + r % 3)) % labels.len()].to_string()).collect() };
+    let lazy = mode.starts_with("lazy");
+    let base = if lazy { lazy_book_with(&strings(0)) } else { book_with(&strings(0)) };
+    let shared = Arc::new(base.clone());
+    let books: Vec<Arc<Spreadsheet>> = (0..k)
+        .map(|i| {
+            if mode.ends_with("same") {
+                shared.clone()
+            } else {
+                let mut c = base.clone();
+                for (r, s) in strings(i).iter().enumerate() {
+                    c.get_sheet_mut(&0).unwrap().get_cell_mut((1, r as u32 + 1)).set_value_string(s.clone());
+                }
+                Arc::new(c)
+            }
+        })
+        .collect();
+    let one = |b: &Spreadsheet| -> String {
+        match guard(|| save_bytes(b).and_then(|x| view_saved(&x)).map(|v| render(&v))) {
+            Ok(Ok(s)) => s,
+            Ok(Err(e)) => format!("err:{}", e),
+            Err(_) => "panic".to_string(),
+        }
+    };
+    let solo: Vec<String> = books.iter().map(|b| one(b)).collect();
+    *umya_spreadsheet::verif_hooks::YIELD.write().unwrap() = None;
+    let mut bad = vec![];
+    for round in 0..rounds {
+        let gate = Arc::new(std::sync::Barrier::new(k));
+        let handles: Vec<_> = books
+            .iter()
+            .map(|b| {
+                let (b, gate) = (b.clone(), gate.clone());
+                std::thread::spawn(move || {
+                    gate.wait();
+                    match guard(|| save_bytes(&b).and_then(|x| view_saved(&x)).map(|v| render(&v))) {
+                        Ok(Ok(s)) => s,
+                        Ok(Err(e)) => format!("err:{}", e),
+                        Err(_) => "panic".to_string(),
+                    }
+                })
+            })
+            .collect();
+        for (i, h) in handles.into_iter().enumerate() {
+            let r = h.join().unwrap_or("thread-panic".into());
+            if r != solo[i] {
+                let at = r.bytes().zip(solo[i].bytes()).position(|(x, y)| x != y).unwrap_or(0);
+                bad.push(format!("round {} saver {}: differs from its solo save at byte {} of the view ({} vs {} bytes)", round, i, at, r.len(), solo[i].len()));
+            }
+        }
+    }
+    if bad.is_empty() {
+        out.oracle_ok();
+        ("all-equal-solo".into(), true)
+    } else {
+        let n = bad.len();
+        bad.truncate(4);
+        out.oracle_fail(Fail::new("free-running-savers-differ-from-solo").with("op", line).with("detail", format!("{} of {} concurrent saves differ; {}", n, rounds * k, bad.join("; "))));
+        (format!("{}-of-{}-differ", n, rounds * k), true)
+    }
+}
+
 fn interleavings(lens: &[usize]) -> Vec<String> {
     fn rec(left: &mut Vec<usize>, cur: &mut String, out: &mut Vec<String>) {
         if left.iter().all(|x| *x == 0) {
@@ -270,6 +345,11 @@ pub fn gen(tier: Tier, seed: u64) -> Vec<String> {
                 v.push(format!("c16 run {} {} {}", mode, s, ps.join(" ")));
             }
         }
+    }
+    // free-running threads
+    for (mode, k, cells, rounds) in [("clone", 4, 1500, 3), ("same", 4, 1500, 2), ("lazyclone", 3, 800, 2)] {
+        let f = if tier == Tier::Thorough { 4 } else { 1 };
+        v.push(format!("c16 stress {} {} {} {}", mode, k, cells, rounds * f));
     }
     let three: Vec<(&str, Vec<&str>)> = vec![
         ("same", vec!["a", "a", "a"]),
